@@ -16,6 +16,7 @@ import (
 	"verif/harness/internal/dom"
 	"verif/harness/internal/kvh"
 	"verif/harness/internal/pbt"
+	"verif/harness/internal/via"
 )
 
 func TestMain(m *testing.M) { pbt.Main(m, "C02") }
@@ -54,7 +55,7 @@ func build(c kvh.Case) *ordered {
 			}
 			return kv{n.Key, n.Value}, true
 		}
-		return &ordered{load: t.FromJSON, put: t.Put, rem: t.Remove, clear: t.Clear, size: t.Size, keys: t.Keys, vals: t.Values, hasVals: true,
+		return &ordered{load: via.AutoLoader(t), put: t.Put, rem: t.Remove, clear: t.Clear, size: t.Size, keys: t.Keys, vals: t.Values, hasVals: true,
 			fwd: func() []kv {
 				var out []kv
 				for it := t.Iterator(); it.Next(); {
@@ -99,7 +100,7 @@ func build(c kvh.Case) *ordered {
 			}
 			return kv{n.Key, n.Value}, true
 		}
-		return &ordered{load: t.FromJSON, put: t.Put, rem: t.Remove, clear: t.Clear, size: t.Size, keys: t.Keys, vals: t.Values, hasVals: true,
+		return &ordered{load: via.AutoLoader(t), put: t.Put, rem: t.Remove, clear: t.Clear, size: t.Size, keys: t.Keys, vals: t.Values, hasVals: true,
 			fwd: func() []kv {
 				var out []kv
 				for it := t.Iterator(); it.Next(); {
@@ -154,7 +155,7 @@ func build(c kvh.Case) *ordered {
 		}
 	case kvh.BTree:
 		t := btree.NewWith[int, int](c.Order, kc)
-		return &ordered{load: t.FromJSON, put: t.Put, rem: t.Remove, clear: t.Clear, size: t.Size, keys: t.Keys, vals: t.Values, hasVals: true,
+		return &ordered{load: via.AutoLoader(t), put: t.Put, rem: t.Remove, clear: t.Clear, size: t.Size, keys: t.Keys, vals: t.Values, hasVals: true,
 			fwd: func() []kv {
 				var out []kv
 				for it := t.Iterator(); it.Next(); {
@@ -202,7 +203,7 @@ func build(c kvh.Case) *ordered {
 		}
 	case kvh.TreeMap:
 		t := treemap.NewWith[int, int](kc)
-		return &ordered{load: t.FromJSON, put: t.Put, rem: t.Remove, clear: t.Clear, size: t.Size, keys: t.Keys, vals: t.Values, hasVals: true,
+		return &ordered{load: via.AutoLoader(t), put: t.Put, rem: t.Remove, clear: t.Clear, size: t.Size, keys: t.Keys, vals: t.Values, hasVals: true,
 			fwd: func() []kv {
 				var out []kv
 				for it := t.Iterator(); it.Next(); {
@@ -225,7 +226,7 @@ func build(c kvh.Case) *ordered {
 		}
 	case TreeSet:
 		s := treeset.NewWith[int](kc)
-		return &ordered{load: s.FromJSON, put: func(k, _ int) { s.Add(k) }, rem: func(k int) { s.Remove(k) }, clear: s.Clear, size: s.Size, keys: s.Values,
+		return &ordered{load: via.AutoLoader(s), put: func(k, _ int) { s.Add(k) }, rem: func(k int) { s.Remove(k) }, clear: s.Clear, size: s.Size, keys: s.Values,
 			fwd: func() []kv {
 				var out []kv
 				for it := s.Iterator(); it.Next(); {
@@ -244,7 +245,7 @@ func build(c kvh.Case) *ordered {
 		}
 	case kvh.TreeBidi:
 		t := treebidimap.NewWith[int, int](kc, dom.Cmp(c.VCmp))
-		return &ordered{load: t.FromJSON, put: t.Put, rem: t.Remove, clear: t.Clear, size: t.Size, keys: t.Keys, vals: t.Values, hasVals: true,
+		return &ordered{load: via.AutoLoader(t), put: t.Put, rem: t.Remove, clear: t.Clear, size: t.Size, keys: t.Keys, vals: t.Values, hasVals: true,
 			fwd: func() []kv {
 				var out []kv
 				for it := t.Iterator(); it.Next(); {
